@@ -146,7 +146,7 @@ PROPS["C16"] = {
 }
 PROPS["C18"] = {
     "corr": "Model.Hampel.hampel_step vs hampel::Hampel<f64,N>/<f32,N>::filter on integer samples with a logged decision margin",
-    "rule": "Hampel<f64,N> (alphabet {0,1,3,50}) and Hampel<f32,N> (alphabet {0,2,40}) for N=1..5, thresholds {0,1/2,1,2,3}: all sequences of the tier's length; seeded random sequences with plateaus and injected outliers for N=1..9; cases in which a float comparison feeding the decision is within 1e-6 (f64) / 1e-3 (f32) of its boundary are skipped and counted (both readings of the window maximum are considered); non-trivial = sequence longer than the window and at least one sample replaced (Check/C18.v)",
+    "rule": "Hampel<f64,N> (alphabet {0,1,3,50}) and Hampel<f32,N> (alphabet {0,2,40}) for N=1..5, thresholds {0,1/2,1,2,3}: all sequences of the tier's length; seeded random sequences with plateaus and injected outliers for N=1..9; a quarter of the random cases and an exhaustive block are run at extreme amplitudes (samples times 2^sc, sc = +-64/100 for f32 and +-500..900 for f64, exact in binary floating point; outputs divided by it; the model's outputs scale the same way by C18_affine_equivariant, so Coq sees the unscaled case); cases in which a float comparison feeding the decision is within 1e-6 (f64) / 1e-3 (f32) of its boundary are skipped and counted (both readings of the window maximum are considered); non-trivial = sequence longer than the window and at least one sample replaced (Check/C18.v)",
     "trusted": ["floats: integer samples and dyadic thresholds, decision margin enforced by the harness, so float decisions coincide with the exact-arithmetic model; outputs must be integers", "factor 1.4826 = 14826/10000"],
     "assumptions": ["N >= 1", "threshold >= 0"],
     "level_text": "Theorems (on top of the median-filter invariant) for every width N>=1, threshold >= 0 and history over canonical rationals: the first sample is returned unchanged; every output is the sample or the lower median of the preceding window; a sample within threshold*1.4826*(median - window minimum) is passed; a sample farther than threshold*1.4826*(largest window deviation) is replaced by the median, in particular any sample differing from a constant window. The proofs use only that max() returns some window element, so they are independent of finding C17.",
